@@ -2,6 +2,18 @@
 // Laws of DESIGN.md section 5/C17: numbers (N*), strict decimal grammar (G*), tokenise / re-join (T*),
 // nested tokeniser (T3), key-value procedures (K*), wildcards (W*), variables (V1), tables (D1),
 // distributions (P1).
+//
+// Weakest documented readings used by the oracles (DESIGN section 3 rule 2):
+//  * unparseRemainingTokens(): delimiter runs at the two ends of the input that produce no token are not part of
+//    any recorded separator (T1 accepts  input = L + unparsed + R  with L, R made of delimiters only).
+//  * allowEmptyTokens=true ("empty tokens are allowed"): the empty pieces before the first / after the last
+//    non-empty piece may or may not be reported (the non-solid mode skips leading delimiters, DataTable::read
+//    relies on it for alignHeaders); everything in between must be reported (T1: separators are single delimiters).
+//  * NestedStringTokenizer: the doc does not say whether empty pieces are reported: non-empty tokens are compared.
+//  * keys / values of a procedure are compared as written when rendered without blanks; with blanks around them
+//    the parser's trimming is what makes them equal.
+//  * distributions: Simple is compared within 1e-5 (6-decimal rendering), every other family within 1e-9.
+// Enum laws: the quick / thorough fields are shard counts; >= 16 shards selects the thorough bound (length 8).
 #include "common/pbt.hpp"
 #include "common/bppcommon.hpp"
 
